@@ -47,9 +47,29 @@ fn norm(d: &dyn Debug) -> String {
 }
 
 /// all variants of a generated binding enum, through its own From<c_int>
-fn variants<T: From<c_int> + Debug + 'static>() -> Vec<T> {
+fn variants<T: From<c_int> + Debug + Clone + Send + 'static>() -> Vec<T> {
+    // enumerated once per type (every miss is a caught panic)
+    static CACHE: std::sync::Mutex<Option<std::collections::HashMap<std::any::TypeId, Box<dyn std::any::Any + Send>>>> = std::sync::Mutex::new(None);
+    {
+        let mut g = CACHE.lock().unwrap_or_else(|e| e.into_inner());
+        let m = g.get_or_insert_with(Default::default);
+        if let Some(b) = m.get(&std::any::TypeId::of::<T>()) {
+            if let Some(v) = b.downcast_ref::<Vec<T>>() {
+                return v.clone();
+            }
+        }
+    }
+    let v = variants_uncached::<T>();
+    let mut g = CACHE.lock().unwrap_or_else(|e| e.into_inner());
+    g.get_or_insert_with(Default::default).insert(std::any::TypeId::of::<T>(), Box::new(v.clone()));
+    v
+}
+
+fn variants_uncached<T: From<c_int> + Debug + 'static>() -> Vec<T> {
     let mut v = vec![];
-    for i in 0..1100 {
+    // the interpreter pays dearly for every caught panic: a smaller scan there (the largest enumeration used under it has 8 variants)
+    let top = if cfg!(miri) { 12 } else { 1100 };
+    for i in 0..top {
         if let Ok(x) = std::panic::catch_unwind(|| T::from(i)) {
             v.push(x);
         }
@@ -557,6 +577,31 @@ fn structs(a: &ShardArgs) {
     }
 }
 
+/// the pointer-free struct conversions, a few values each (interpreter runs)
+fn structs_small(a: &ShardArgs) {
+    for v in [0u8, 1, 0x80, 0xFF] {
+        let n: Flags = (&ffi::Flags { value: v }).into();
+        let back: ffi::Flags = n.into();
+        out::eval(1);
+        if n.value != v || back.value != v {
+            viol(a, "field_lost", "Flags", format!("flag octet {v:#04x} converted to {:#04x} and back to {:#04x}", n.value, back.value));
+        } else {
+            out::count("flags_ok", 1);
+        }
+    }
+    for q in variants::<ffi::TimeQuality>() {
+        let f = time_of(q.clone().into(), 77);
+        let n: Option<Time> = (&f).into();
+        let back: ffi::Timestamp = n.into();
+        out::eval(1);
+        if back.quality() != q {
+            viol(a, "round_trip", "Timestamp", format!("time quality {q:?} -> {n:?} -> {:?}", back.quality()));
+        } else {
+            out::count("round_trips_ok", 1);
+        }
+    }
+}
+
 /// D: the same operations through the binding entry points and through the native API
 fn differential(a: &ShardArgs) {
     let n_seq = a.n(400);
@@ -687,7 +732,10 @@ fn differential(a: &ShardArgs) {
 }
 
 fn c20(a: &ShardArgs) -> Result<(), String> {
-    if a.shard == 0 || a.replay.is_some() {
+    if cfg!(miri) {
+        // under the interpreter: the raw-pointer entry points and the struct conversions only
+        structs_small(a);
+    } else if a.shard == 0 || a.replay.is_some() {
         // exhaustive parts: once
         enums(a);
         structs(a);
